@@ -101,6 +101,9 @@ func c13Calls() []c13Case {
 		{nl(1), "num"}, {nl(-2.5), "negfrac"}, {sl("a b"), "string"}, {sl(""), "empty-string"}, {gen.BoolLit{V: true}, "bool"},
 		{arrLit(tArrN, nl(1), nl(2)), "[]num"}, {arrLit(tArrS, sl("x"), sl("y z")), "[]string"}, {arrLit(tArrAN, arrLit(tArrN, nl(1)), arrLit(tArrN)), "[][]num"},
 		{gen.MapLit{T: tMapN, Keys: []string{"a", "end"}, Vals: []gen.Expr{nl(1), nl(2)}}, "{}num"},
+		{arrLit(tArrS, sl(""), sl("a")), "[]string-leading-empty"}, {arrLit(tArrS, sl("a"), sl("")), "[]string-trailing-empty"}, {arrLit(tArrS, sl(""), sl(""), sl("")), "[]string-all-empty"},
+		{arrLit(tArrS, sl("a"), sl("b ")), "[]string-trailing-blank"}, {arrLit(tArrS, sl(" a"), sl(" ")), "[]string-blanks"}, {gen.MapLit{T: gen.MapOf(tStr), Keys: []string{"a", "b"}, Vals: []gen.Expr{sl("x "), sl("")}}, "{}string-blank-values"},
+		{arrLit(gen.ArrOf(tArrS), arrLit(tArrS, sl("x"), sl("")), arrLit(tArrS, sl(""))), "[][]string-empty-last"}, {gen.Binary{Op: "*", L: arrLit(tArrS, sl("")), R: nl(3), T: tArrS}, "[]string-repeated-empty"},
 		{vr("mk", tMapN), "{}num-odd-keys"}, {vr("ea", tArrA), "[]any-mixed"}, {vr("em", gen.MapOf(tAny)), "{}any-empty"}, {vr("xs", tAny), "any-string"}, {vr("xa", tAny), "any-array"},
 	}
 	for _, v := range vals {
